@@ -331,6 +331,11 @@ def __infer_group_stmt(
     env: context.Environment,
 ) -> InferredVolatility:
     components = [ir.subject, ir.result] + [v for v, _ in ir.using.values()]
+
+    # The WITH block is evaluated too (just like in __infer_select_stmt).
+    if ir.bindings is not None:
+        components.extend(part for part, _ in ir.bindings)
+
     return _common_volatility(components, env)
 
 
